@@ -66,8 +66,9 @@ def dnf(c):
 def run(repo, rep, tier):
     rep.decided = ["D1 year refusal, exhaustive seasons, target longitude k*90", "D2 +-180 reduction acts on a number; radians",
                    "D3 latitude refusal; civil year/month in the leap-second term", "D4 no-times result iff |cos H0| > 1"]
-    rep.undecided = ["1e-5 deg accuracy and spacing of the seasons", "equation-of-time magnitude / rate", "rise/set altitude agreement"]
+    rep.undecided = ["spacing of the seasons; the 1e-5 deg accuracy is decided as far as the loop's exit guarantee goes (given convergence)", "equation-of-time magnitude / rate", "rise/set altitude agreement"]
     seasons(repo, rep)
+    season_exit(repo, rep)
     eot(repo, rep)
     rise_set(repo, rep)
     trts(repo, rep)
@@ -126,6 +127,58 @@ def seasons(repo, rep):
         rep.violation("R-ENUM", e.site, e.key, e.msg)
     if not evs:
         rep.ok("R-ENUM", site, "if/elif dispatch covers the four validated season names")
+
+
+def season_exit(repo, rep):
+    """R-EXIT-BOUND: the refinement loop `while abs(corr) > THR: ...; corr = G*sin(target - lon); epoch += corr`
+    followed by `epoch -= corr` returns the epoch at which the last longitude was evaluated; there
+    sin(target - lon) = corr/G with |corr| <= THR, so |target - lon| <= asin(THR/G).  The property asks 1e-5 deg."""
+    import math
+    from ..rules import const_value
+    rep.rule("R-EXIT-BOUND", "exit criterion of the season refinement loop guarantees |longitude - k*90| <= 1e-5 deg: asin(THR/G) in degrees "
+                             "(three-valued: PROVED / REFUTED / INCONCLUSIVE when the loop shape is not recognised)")
+    q = "Sun.get_equinox_solstice"
+    site = "Sun." + q
+    fn = repo.func("Sun", q)
+    loops = [n for n in ast.walk(fn) if isinstance(n, ast.While)]
+    if len(loops) != 1:
+        rep.inconcl("R-EXIT-BOUND", site, "expected one refinement loop, found %d" % len(loops))
+        return
+    lp = loops[0]
+    t = lp.test
+    thr = var = None
+    if isinstance(t, ast.Compare) and len(t.ops) == 1 and isinstance(t.ops[0], (ast.Gt, ast.GtE)) and isinstance(t.left, ast.Call) \
+            and norm_text(t.left.func) == "abs" and isinstance(t.left.args[0], ast.Name):
+        var = t.left.args[0].id
+        thr = const_value(repo, "Sun", t.comparators[0])
+    gain = None
+    sin_arg = None
+    for st in lp.body:
+        if isinstance(st, ast.Assign) and len(st.targets) == 1 and isinstance(st.targets[0], ast.Name) and st.targets[0].id == var \
+                and isinstance(st.value, ast.BinOp) and isinstance(st.value.op, ast.Mult):
+            for a, b in ((st.value.left, st.value.right), (st.value.right, st.value.left)):
+                g = const_value(repo, "Sun", a)
+                if g is not None and isinstance(b, ast.Call) and norm_text(b.func) == "sin":
+                    gain, sin_arg = g, b.args[0]
+    # the correction is applied to the epoch inside the loop
+    applied = any(isinstance(st, ast.AugAssign) and isinstance(st.op, ast.Add) and isinstance(st.value, ast.Name) and st.value.id == var
+                  for st in lp.body)
+    if thr is None or gain is None or not applied or thr <= 0 or gain <= 0:
+        rep.inconcl("R-EXIT-BOUND", site, "refinement loop is not of the form `while abs(c) > THR: c = G*sin(..); epoch += c`")
+        return
+    # the sine argument is the (wrapped) difference target - longitude in radians: decided by R-ENUM/R-UNITS above
+    if thr / gain >= 1:
+        rep.violation("R-EXIT-BOUND", site, "exit-threshold", "loop threshold %g >= gain %g: the exit test is always true" % (thr, gain))
+        return
+    bound = math.degrees(math.asin(thr / gain))
+    if bound <= 1e-5:
+        rep.ok("R-EXIT-BOUND", site, "exit when |corr| <= %g d with corr = %g*sin(dlon): |dlon| <= asin(%g/%g) = %.3g deg <= 1e-5 PROVED"
+               % (thr, gain, thr, gain, bound), obligation=True)
+    else:
+        rep.violation("R-EXIT-BOUND", site, "exit-threshold",
+                      "the refinement loop stops as soon as |corr| <= %g d (corr = %g*sin(dlon)), which only guarantees |longitude - target| <= %.3g deg; "
+                      "the property asks 1e-5 deg, and the iteration contracts by a modest factor per step, so residuals near the bound do occur"
+                      % (thr, gain, bound), obligation=True)
 
 
 def eot(repo, rep):
